@@ -107,6 +107,13 @@ impl<'a> MemfsGuard<'a> {
 }
 
 /// Provides a purely memory based, multi-thread safe [`VirtualFileSystem`] backend implementation
+#[cfg(rivia_verif)]
+impl<'a> Drop for MemfsGuard<'a> {
+    fn drop(&mut self) {
+        crate::verif::released(matches!(self, MemfsGuard::Write(_)));
+    }
+}
+
 #[derive(Debug)]
 pub struct Memfs(Arc<RwLock<MemfsInner>>);
 
@@ -150,11 +157,15 @@ impl Memfs {
 
     // Create a MemfsGuard::Read
     pub(crate) fn read_guard(&self) -> MemfsGuard {
+        #[cfg(rivia_verif)]
+        crate::verif::before_acquire(false);
         MemfsGuard::Read(self.0.read().unwrap())
     }
 
     // Create a MemfsGuard::write
     pub(crate) fn write_guard(&self) -> MemfsGuard {
+        #[cfg(rivia_verif)]
+        crate::verif::before_acquire(true);
         MemfsGuard::Write(self.0.write().unwrap())
     }
 
